@@ -230,7 +230,7 @@ class Path(object):
 
 class Config(object):
     def __init__(self, maxdepth=3, maxpaths=4000, inline=None, may_raise=None, assume_asserts=True,
-                 inline_init=True, unroll=1, fork_handlers=True):
+                 inline_init=True, unroll=1, fork_handlers=True, immediate_callbacks=False):
         self.maxdepth = maxdepth
         self.maxpaths = maxpaths
         self.inline = inline  # fn(fi, ev, path) -> bool ; None = default policy
@@ -239,6 +239,7 @@ class Config(object):
         self.inline_init = inline_init
         self.unroll = unroll
         self.fork_handlers = fork_handlers
+        self.immediate_callbacks = immediate_callbacks
 
 
 LOG_METHODS = {"debug", "info", "warning", "error", "exception", "critical"}
@@ -1540,6 +1541,19 @@ class Interp(object):
                 results.append((q.value if q.status == "ok" else None, q))
             return results
         # opaque
+        if self.cfg.immediate_callbacks and callee is None and isinstance(fv, tuple) and fv[0] == "attr" and fv[2] == "add_done_callback" and len(args) == 1:
+            # the receiver may already be done: the callback then runs right here, on this thread, with
+            # every lock that is held now
+            cb = args[0]
+            cbc, _s, _c, _a = self.resolve_callee(cb, p, node)
+            if cbc is not None or (isinstance(cb, tuple) and cb[0] == "partial"):
+                q = p.fork()
+                self.emit(q, "immediate-callback", node, {"cb": cb, "recv": fv[1]})
+                for v2, r in self.apply(cb, (fv[1],), (), q, node):
+                    if r.status == "ok":
+                        results.append((NONE, r))
+                    else:
+                        results.append((None, r))
         results.append((self.opaque_result(fv, args, kwargs, p, node, callee), p))
         return results
 
